@@ -59,6 +59,16 @@ def explore(core, rng, tier, seed, search=False):
             L = "[" + ",".join(map(str, xs)) + "]"
             sc += ["min %s %s" % (ty, L), "max %s %s" % (ty, L), "sum %s %s" % (ty, L), "product %s %s" % (ty, L)]
         scripts.append(sc)
+    # float64 Sum/Product: left-to-right, so operands whose rounding or overflow depends on the grouping
+    import struct
+    def bits(x): return struct.unpack("<q", struct.pack("<d", x))[0]
+    pool = [1e16, 1.0, -1e16, 1.0, 0.1, 0.2, 0.3, 1.7976931348623157e308, -1.7976931348623157e308, 1e308, 3.0, 1e-300, 2.0**53, -2.0**53, 0.5, -0.0, float("inf")]
+    sc = ["sum f64 [%d,%d,%d,%d]" % tuple(bits(x) for x in (1e16, 1.0, -1e16, 1.0)), "sum f64 []", "product f64 []"]
+    for _ in range(120):
+        xs = [rng.choice(pool) for _ in range(rng.randrange(0, 8))]
+        L = "[" + ",".join(str(bits(x)) for x in xs) + "]"
+        sc += ["sum f64 " + L, "product f64 " + L]
+    scripts.append(sc)
     sc = []
     for _ in range(60):
         xs = [rng.choice([0, 0, 0, rng.randrange(-5, 6)]) for _ in range(rng.randrange(0, 6))]
